@@ -358,6 +358,9 @@ def main(argv=None):
         for i in range(0, n, chunk):
             jobs.append((prop, spec, profile, seeds[i:i + chunk], cfg,
                          spec.get('digest_sample_every', 50)))
+    # interleave the profiles: a run stopped at its wall budget has explored
+    # every profile in proportion
+    jobs.sort(key=lambda j: j[3][0] % 1_000_000)
     agg = Counter()
     viols = []
     shapes = {}
@@ -369,29 +372,58 @@ def main(argv=None):
     n_viols = 0
     cpu = 0.0
     budget = float(os.environ.get('GPSIM_BUDGET_S', spec.get(tier + '_budget_s',
-                   500 if tier == 'quick' else 3300)))
+                   500 if tier == 'quick' else 2900)))
     ctx = multiprocessing.get_context('fork')
     stopped_early = False
+    budget_hit = False
+    collected = set()
+
+    def collect(fu):
+        nonlocal n_viols, sim_s, cpu
+        collected.add(fu)
+        r = fu.result()
+        agg.update(r['agg'])
+        viols.extend(r['viols'])
+        n_viols += r['n_viols']
+        for k, nt in r['shapes'].items():
+            shapes[k] = shapes.get(k, False) or nt
+        states.update(r['states'])
+        trans.update(r['trans'])
+        if len(samples) < 4:
+            samples.extend(r['samples'])
+        sim_s += r['sim_s']
+        det[0] += r['det'][0]
+        det[1] += r['det'][1]
+        errors.extend(r['errors'])
+        cpu += r['cpu']
+
+    import concurrent.futures as _cf
     with ProcessPoolExecutor(max_workers=a.jobs, mp_context=ctx) as ex:
         futs = [ex.submit(work, j) for j in jobs]
         try:
-            for fu in as_completed(futs, timeout=budget):
-                r = fu.result()
-                agg.update(r['agg'])
-                viols.extend(r['viols'])
-                n_viols += r['n_viols']
-                for k, nt in r['shapes'].items():
-                    shapes[k] = shapes.get(k, False) or nt
-                states |= r['states']
-                trans |= r['trans']
-                if len(samples) < 4:
-                    samples.extend(r['samples'])
-                sim_s += r['sim_s']
-                det[0] += r['det'][0]
-                det[1] += r['det'][1]
-                errors.extend(r['errors'])
-                cpu += r['cpu']
-        except Exception as e:      # noqa  timeout or a dead worker
+            try:
+                for fu in as_completed(futs, timeout=budget):
+                    collect(fu)
+            except _cf.TimeoutError:
+                # the wall budget of the tier is a soft stop (a loaded
+                # machine explores less, it does not fail): nothing new is
+                # started, chunks already running are given time to finish,
+                # the verdict covers what was explored
+                budget_hit = True
+                for fu in futs:
+                    fu.cancel()
+                running = [f for f in futs if not f.cancelled()
+                           and f not in collected]
+                done, not_done = _cf.wait(running, timeout=180)
+                for fu in done:
+                    collect(fu)
+                agg['chunks_abandoned_at_budget'] += len(not_done)
+                for p in list(getattr(ex, '_processes', {}).values()):
+                    try:
+                        p.kill()
+                    except Exception:      # noqa
+                        pass
+        except Exception as e:      # noqa  a dead worker
             stopped_early = True
             errors.append({'seed': None, 'trace': f'pool: {e!r}'})
             for fu in futs:
@@ -401,6 +433,8 @@ def main(argv=None):
                     p.kill()
                 except Exception:      # noqa
                     pass
+    if budget_hit:
+        agg['budget_exhausted'] += 1
     wall = time.time() - t0
 
     # -- verdicts
@@ -507,7 +541,10 @@ def main(argv=None):
           f"{distinct_nontrivial} distinct non-trivial shapes, "
           f"{len(unknown)} unlisted violation signatures, "
           f"{sum(sig_counts[s] for s in known_sigs if s in sig_counts)} "
-          f"known-finding hits, {wall:.1f}s")
+          f"known-finding hits, {wall:.1f}s"
+          + (f" (stopped at the wall budget of {budget:.0f}s: "
+             f"{ev['coverage']['evaluations']} of {n_total} requested "
+             f"scenarios explored)" if budget_hit else ''))
     for ln in lines:
         print(ln)
     if vac:
